@@ -136,8 +136,8 @@ RECURSIVE SumTerms(_, _, _)
 SumTerms(F, T, k) == IF k = 0 THEN GZ ELSE GAdd(TermVal(F, T[k]), SumTerms(F, T, k - 1))
 CurlH(g, F, i) == SumTerms(F, g.stH[i], Len(g.stH[i]))
 CurlE(g, F, i) == SumTerms(F, g.stE[i], Len(g.stE[i]))
-WallE(g, F) == [ i \in 1..g.n |-> IF g.zEs[i] THEN GZ ELSE F[i] ]
-WallH(g, F) == [ i \in 1..g.n |-> IF g.zHs[i] THEN GZ ELSE F[i] ]
+WallE(g, F) == TLCEval([ i \in 1..g.n |-> IF g.zEs[i] THEN GZ ELSE F[i] ])
+WallH(g, F) == TLCEval([ i \in 1..g.n |-> IF g.zHs[i] THEN GZ ELSE F[i] ])
 WallOK(g, s) == /\ \A i \in 1..g.n : g.zE[i] => s.E[i] = GZ
                 /\ \A i \in 1..g.n : g.zH[i] => s.H[i] = GZ
 
@@ -164,19 +164,21 @@ UpdE(g, s, t) ==
     LET d2 == 4 * g.le * g.lq * s.dH
         q  == Div(4 * g.le * s.dH, s.dE)
     IN  [ s EXCEPT !.dE = d2,
-                   !.E  = [ i \in 1..g.n |->
-                              LET inj == IF Len(g.src) = 0 THEN 0 ELSE Inj(g, "E", s.amp, i, t, FALSE)
+                   !.E  = TLCEval([ i \in 1..g.n |->
+                              LET amp == IF g.variant = "lin_double"        \* wrong: amplitude factor applied twice
+                                         THEN [ k \in 1..Len(s.amp) |-> s.amp[k] * s.amp[k] ] ELSE s.amp
+                                  inj == IF Len(g.src) = 0 THEN 0 ELSE Inj(g, "E", amp, i, t, FALSE)
                                   x == GAdd(GK(g.an[i] * q, s.E[i]), GK(g.bn[i] * g.ie2[i], CurlH(g, s.H, i)))
-                              IN  << x[1] - g.ie2[i] * inj * (d2 \div 4), x[2] >> ] ]
+                              IN  << x[1] - g.ie2[i] * inj * (d2 \div 4), x[2] >> ]) ]
 \* update_H (before the wall):  H' = [q Hn - im2 S(En)] / (4 LH dE) ; then  H' += -c inv_mu amp J ; Hp' = H
 UpdH(g, s, t) ==
     LET d2 == 4 * g.lh * s.dE
         q  == Div(d2, s.dH)
     IN  [ s EXCEPT !.dH = d2, !.Hp = s.H, !.dHp = s.dH,
-                   !.H  = [ i \in 1..g.n |->
+                   !.H  = TLCEval([ i \in 1..g.n |->
                               LET inj == IF Len(g.src) = 0 THEN 0 ELSE Inj(g, "H", s.amp, i, t, FALSE)
                                   x == GSub(GK(q, s.H[i]), GK(g.im2[i], CurlE(g, s.E, i)))
-                              IN  << x[1] - g.im2[i] * inj * (d2 \div 4), x[2] >> ] ]
+                              IN  << x[1] - g.im2[i] * inj * (d2 \div 4), x[2] >> ]) ]
 ApplyWallE(g, s) == [ s EXCEPT !.E = WallE(g, s.E) ]
 ApplyWallH(g, s) == [ s EXCEPT !.H = WallH(g, s.H) ]
 
@@ -187,10 +189,10 @@ RevHU(g, s, t) ==
         qc == L \div (4 * g.lh * s.dE)
         raw == g.variant = "rev_noadj"
     IN  [ s EXCEPT !.dH = L,
-                   !.H  = [ i \in 1..g.n |->
+                   !.H  = TLCEval([ i \in 1..g.n |->
                               LET inj == IF Len(g.src) = 0 THEN 0 ELSE Inj(g, "H", s.amp, i, t, raw)
                                   h == << s.H[i][1] * qh + g.im2[i] * inj * (L \div 4), s.H[i][2] * qh >>
-                              IN  GAdd(h, GK(qc * g.im2[i], CurlE(g, s.E, i))) ] ]
+                              IN  GAdd(h, GK(qc * g.im2[i], CurlE(g, s.E, i))) ]) ]
 \* update_E_reverse (before the wall): remove the injection, then  E = (E' (1+s) - c inv_eps curl_H(H)) / (1-s)
 RevEU(g, s, t) ==
     LET L  == LCM(s.dE, 4 * g.le * s.dH)
@@ -198,11 +200,11 @@ RevEU(g, s, t) ==
         qc == L \div (4 * g.le * s.dH)
         raw == g.variant = "rev_noadj"
     IN  [ s EXCEPT !.dE = g.lq * L,
-                   !.E  = [ i \in 1..g.n |->
+                   !.E  = TLCEval([ i \in 1..g.n |->
                               LET inj == IF Len(g.src) = 0 THEN 0 ELSE Inj(g, "E", s.amp, i, t, raw)
                                   am == IF g.variant = "rev_nofactor" THEN 1 ELSE g.lq \div g.an[i]
                                   e == << s.E[i][1] * qe + g.ie2[i] * inj * (L \div 4), s.E[i][2] * qe >>
-                              IN  GK(am, GSub(GK(g.lq, e), GK(g.bn[i] * g.ie2[i] * qc, CurlH(g, s.H, i)))) ] ]
+                              IN  GK(am, GSub(GK(g.lq, e), GK(g.bn[i] * g.ie2[i] * qc, CurlH(g, s.H, i)))) ]) ]
 
 \* one full step of forward() / backward() in the code's order
 Forward(g, s, t)  == ApplyWallH(g, UpdH(g, ApplyWallE(g, UpdE(g, s, t)), t))
